@@ -1,6 +1,6 @@
 PLAN['C14'] = dict(
     level='exploration',
-    units=std_units('C14', [('asan', 'sdcz', 15000, 200000), ('asan-vb', 'sdcz', 8000, 100000), ('asan-i64', 'sdcz', 3000, 40000)], chunk=250),
+    units=std_units('C14', [('asan', 'sdcz', 22500, 200000), ('asan-vb', 'sdcz', 12000, 100000), ('asan-i64', 'sdcz', 4500, 40000)], chunk=250),
     rule='one kernel family per case: sp_?trsv (35%: 1-4 calls over uplo x trans x diag; upper-case / long-word / one lower-case argument / upper+diag=U), '
          '?gstrs (28%: trans N/T/C x nrhs 0..5 x ldb padding; joint solve vs every column alone (ldb=n) vs a leading subset with other padding), '
          'sp_?gemv (25%: rectangular A from 11 pattern x 8 value classes, m,n 1..30, alpha/beta in {0,1,-1,random[,imaginary]}, y = NaN/Inf junk when beta=0, '
